@@ -127,12 +127,13 @@ Section Entries.
     map (fun p => surface_dist2 O p TT) (group3 sc).
 
   (* 26: ConvexSpheropolyhedron.is_inside as the code decides it. sc = r^2 :: points, qs = vertices, idx = faces (ccw from outside):
-        per point [accepted; in the core; number of faces looked at] *)
+        certificate (Model/Sphero.v sphero_certb) :: per point [accepted; in the core; number of faces looked at] *)
   Definition e_sphero_inside (sc qs : list Q) (idx : list (list nat)) : list Q :=
     let V := group3 qs in let Fs := map (fun f => map (getv O V) f) idx in
     match sc with
     | [] => []
     | r2 :: pts =>
+      b2q (sphero_certb O Fs) ::
       flat_map (fun p => [b2q (sphero_inside O r2 Fs p); b2q (in_core O Fs p);
                           z2q (Z.of_nat (length (filter (fun F => to_check O r2 F p) Fs)))]) (group3 pts)
     end.
